@@ -112,3 +112,20 @@ Definition m_vrank (pct rev : bool) (xs : list float) : list Z :=
 (* vdiff needs Sub on the element type: f64 only (Option<f64> has no subtraction) *)
 Definition m_vdiff (n : Z) (v : option float) (xs : list float) : list Z :=
   let r := RunC13.r_vdiff pF n v xs in enc2 r r.
+
+(* ---- audit (notes/C08.md "Audit matrix"): the boolean aggregations and the masked family --------------------------
+   The logical boolean series / mask is given as a float list: NaN = null flag, x > 0 = true, otherwise false. *)
+From Tevec Require Model.NullView.
+Definition bo (x : float) : option bool := if PrimFloat.is_nan x then None else Some (PrimFloat.ltb 0 x).
+Definition g_aggb {TB : Type} {DB : IsNone TB bool} (xs : list TB) : list Z := c_bool (vany xs) ++ c_bool (vall xs).
+(* vany vall: Option<bool> read with its own dictionary and through the option view's dictionary *)
+Definition aggb (xs : list float) : list Z :=
+  enc2 (g_aggb (DB := IsNone_opt false) (map bo xs)) (g_aggb (DB := Model.NullView.IsNone_view false) (map bo xs)).
+(* for every mp: n_vsum_filter.0 n_vsum_filter.1 n_sum_filter vmean_filter(mp) *)
+Definition g_aggk {T : Type} {DT : IsNone T float} {U : Type} {DU : IsNone U bool}
+           (maxmp : nat) (xs : list T) (ms : list U) : list Z :=
+  flat_map (fun mp => (let ns := n_vsum_filter xs ms in c_nat (fst ns) ++ c_float (snd ns)) ++
+                      c_opt c_float (n_sum_filter xs ms) ++ c_float (vmean_filter idf mp xs ms)) (mps maxmp).
+Definition aggk (maxmp : nat) (xs ms : list float) : list Z :=
+  enc2 (g_aggk (DT := IsNoneF64) (DU := IsNone_opt false) maxmp xs (map bo ms))
+       (g_aggk (DT := IsNoneOptF64) (DU := IsNone_opt false) maxmp (optv xs) (map bo ms)).
